@@ -1084,5 +1084,5 @@ class Parsent(object):
             try:
                 self.data = json.loads(self.body.decode('utf-8'),
                                        object_pairs_hook=dict)
-            except ValueError as ex:
+            except (ValueError, RecursionError) as ex:  # not json or nested too deep
                 self.data = None
